@@ -43,6 +43,14 @@ REG_RULE = ("case = one registry (prefix / common labels incl. invalid ones) + 2
             "overlapping pools) + 4-16 register/unregister/redefine/gather calls; non-trivial = at least two successful and one refused registration; distinct by request text")
 
 PROPS = {
+    "C18": dict(
+        module="Prom.Props.C18",
+        areas=[dict(area="timer", quick=2000, thorough=80000)],
+        rule="case = one shared histogram with a parent local histogram + 4-18 operations over several shared and local timers "
+             "(start, stop_and_record, observe_duration, stop_and_discard, drop, stop on another thread, observe_closure_duration, plain observe on / flush of the parent local); "
+             "non-trivial = at least two timers ended; distinct by request text",
+        trusted=["the clock is an input (elapsed() saturates at zero); only the number and sign of recorded values is checked"],
+    ),
     "C12": dict(
         module="Prom.Props.C12",
         areas=[dict(area="local", quick=1500, thorough=60000)],
